@@ -190,13 +190,23 @@ fn check_case(ctx: &mut Ctx, c: &Case) {
             v
         })));
     }
+    // The property is about answers: a vector built by another route must hold the same bits, report the
+    // same counts and answer the same queries. (That the representation is identical is C11's statement.)
+    let _ = &reference;
     for (route, r) in routes {
         match r {
             Ok(v) => {
-                let same = v == bv && to_bytes(&v) == reference;
-                ctx.require(|| format!("BitVector.route({})", route), same, || json!({"bv": case(), "call": route}), || json!({"observed": "vector differs from the one built from a raw vector", "len": v.len(), "ones": v.count_ones()}));
-                if small && route == "FromIterator<bool>" {
-                    check_bitvec!(ctx, &v, &m, "BitVector(FromIterator)", &q, case);
+                let same_bits = guard(|| {
+                    v.len() == bv.len() && v.count_ones() == bv.count_ones() && v.count_zeros() == bv.count_zeros() && v.iter().eq(bv.iter())
+                });
+                ctx.expect(|| format!("BitVector.route({})[bits and counts]", route), same_bits, &true, || json!({"bv": case(), "call": route}));
+                let name = format!("BitVector(route {})", route);
+                if small {
+                    check_bitvec!(ctx, &v, &m, &name, &q, case);
+                } else {
+                    let mut q2 = Queries::edges(&m, &[64, 512], &[64, 4096], 20, false);
+                    q2.full_iters = false;
+                    check_bitvec!(ctx, &v, &m, &name, &q2, case);
                 }
             }
             Err(msg) => ctx.panic_violation(&format!("BitVector.route({})", route), &msg, None, || json!({"bv": case(), "call": route})),
